@@ -107,7 +107,35 @@ def Statement_gen_yields_all_when_dry : Prop :=
     ops.any isForce = false → ((Multi.lazy full).run ops).1.pending = [] →
       genYields ((Multi.lazy full).run ops).2 = full.filter rowBound
 
+/-! ### Statements, text level (round g) -/
+
+/-- JSON strings: `json.loads`' string scanner (`scanstring`, strict) recovers every string from EVERY RFC 8259
+    spelling of it — per character raw, two-character escape, `\/`, `\uXXXX` in either case, a surrogate pair above
+    U+FFFF; control characters, quotes, backslashes, non-BMP characters included — whatever follows the closing quote. -/
+def Statement_json_text_roundtrip : Prop :=
+  ∀ (ks : List Nat) (s rest : Str), jsonScan (jsonSpell ks s ++ '"' :: rest) = .ok (s, rest)
+
+/-- … in particular what Python's two encoders write — `encode_basestring` (`ensure_ascii=False`, what rdflib's
+    writer passes) and `encode_basestring_ascii` (the `json.dumps` default) — for every string: cell values,
+    variable names, keys. -/
+def Statement_json_py_text_roundtrip : Prop :=
+  ∀ (ascii : Bool) (s : Str), jsonLoadsStr (pyDumpsStr ascii s) = .ok s
+
 /-! ### Theorems -/
+
+theorem json_text_roundtrip : Statement_json_text_roundtrip := fun ks s rest => jsonScan_jsonSpell ks s rest
+
+theorem json_py_text_roundtrip : Statement_json_py_text_roundtrip := fun a s => jsonLoadsStr_pyDumpsStr a s
+
+/-- non-vacuity / regression anchors of the text level: a string with a quote, a backslash, a control character, a
+    line feed, U+007F, a Latin-1 and a non-BMP character, in Python's two spellings -/
+example : pyDumpsStr false ['a', '"', '\\', '\x01', '\n', '\x7f', 'é', Char.ofNat 0x1F600]
+    = "\"a\\\"\\\\\\u0001\\n\x7fé😀\"".toList := by decide
+example : pyDumpsStr true ['a', '"', '\\', '\x01', '\n', '\x7f', 'é', Char.ofNat 0x1F600]
+    = "\"a\\\"\\\\\\u0001\\n\\u007f\\u00e9\\ud83d\\ude00\"".toList := by decide
+/-- a lone surrogate escape is outside the model, an unknown escape is an error -/
+example : (jsonLoadsStr ['"', '\\', 'u', 'd', '8', '3', 'd', '"'] matches .error .unmodelled) = true := by decide
+example : (jsonLoadsStr ['"', '\\', 'x', '4', '1', '"'] matches .error .value) = true := by decide
 
 theorem bindings_complete_interleaved : Statement_bindings_complete_interleaved := by
   intro full ops
